@@ -106,8 +106,17 @@ static void enumerate(const unsigned char *alpha, int na, int maxlen, uint64_t *
   }
 }
 
+/* flush the protocol stream if a sanitizer aborts the process, so that the case being run is identified */
+#if defined(__SANITIZE_ADDRESS__)
+void __asan_set_death_callback(void (*cb)(void));
+static void h_death(void) { if (h_out) fflush(h_out); }
+#endif
+
 int main(int argc, char **argv) {
   h_init_out();
+#if defined(__SANITIZE_ADDRESS__)
+  __asan_set_death_callback(h_death);
+#endif
   if (argc > 1 && !strcmp(argv[1], "-")) {
     static char line[400000], hx[400000], pl[4000], tag[16]; static unsigned char b[200000], pb[2000];
     while (fgets(line, sizeof line, stdin)) {
